@@ -41,7 +41,7 @@ pub const SRC_SCALARS: &[(&str, &str)] = &[
 ];
 
 /// notify signals that carry the new value as argument (the others carry nothing)
-pub const SRC_NOTIFY_WITH_ARG: &[&str] = &["i1", "d1", "b1", "s1", "p1"];
+pub const SRC_NOTIFY_WITH_ARG: &[&str] = &["i1", "d1", "b1", "s1", "p1", "e0", "f0"];
 
 pub const DST_TARGETS: &[(&str, &str)] = &[
     ("ti", "int"), ("tu", "uint"), ("td", "double"), ("tb", "bool"), ("ts", "QString"), ("tsl", "QStringList"), ("til", "QList<int>"),
@@ -67,7 +67,10 @@ pub fn verif_classes() -> Vec<Class> {
     src.properties.push(prop("ci", "int", true, false, None, true)); // CONSTANT
     src.properties.push(prop("nn", "int", true, true, None, false)); // no NOTIFY, not constant
     src.properties.push(prop("pn", "VSrc*", true, true, None, false)); // object pointer without NOTIFY, not constant
-    src.properties.push(prop("ro", "int", true, false, Some("roChanged"), false)); // read-only, notifying
+    // read-only, notifying, FINAL (its value changes from inside the object; the model offers qvSetRo)
+    let mut ro = prop("ro", "int", true, false, Some("roChanged"), false);
+    ro.r#final = true;
+    src.properties.push(ro);
     src.signals.push(sig("roChanged", &[]));
     src.properties.push(prop("wo", "int", false, true, None, false)); // write-only
     src.properties.push(prop("ov", "int", true, true, Some("ovChanged"), false)); // overloaded notify name
